@@ -3,23 +3,47 @@ C16 — export then import returns the same data; files are never clobbered unas
 
 Clauses of the property and the theorems that cover them
   LJSON (coordinates incl. missing, undirected edges, labels in order, group names)
-        ljson_roundtrip, ljson_group_content, ljson_group_names, ljson_edges_stable,
+        ljson_roundtrip, ljson_group_content, ljson_group_names, ljson_edges_stable, ljson_cycle_fixed_point,
         ljson_version_dispatch; the guards of the quantifier are shown necessary by
         ljson_empty_points_error, ljson_other_dims_dropped
-  points format within three decimals      pts_roundtrip_3dp, pts_roundtrip_exact
+  points format within three decimals      pts_roundtrip_3dp, pts_roundtrip_exact; any dimension / NaN (Props/C16PtsN.lean):
+                                           ptsN_roundtrip, ptsN_drops_higher_axes, ptsN_extends_2d
   eight-bit data unchanged                 u8_roundtrip_round (repaired code), u8_trunc_failures /
                                            u8_trunc_off_by_one / u8_trunc_refuted (code as it stands: REFUTED)
+  sixteen-bit data, any bit depth ≤ 16     (Props/C16Soft.lean) range_roundtrip_of_rounding, range_roundtrip_round,
+                                           u16_roundtrip_round, u8_roundtrip_round_arith, u16_trunc_refuted, rn53_err
   float data < one quantisation level      float_export_error_lt_one_level, channel_layout_roundtrip
   overwrite guard, every exporter/spelling export_guard_refuses, export_guard_history, export_guard_frame,
                                            export_guard_spelling, normpath_redundant_spellings,
                                            normpath_fixed, extension_parse_longest_known
-  pickle                                   no theorem (Python's serialiser is a contract; decided by the oracle on
-                                           real files) — PARTIAL
+  LJSON versions 1 and 2 (import only)     (Props/C16Legacy.lean) ljson_import_wellformed, ljson_legacy_wellformed,
+                                           ljson_v2_reads_v3_group, ljson_v2_edges_need_labels,
+                                           ljson_version_dispatch_legacy
+  multi-dot names, format + compression    (Props/C16Ext.lean) export_import_agree, decisions_agree_of_tables,
+                                           export_reader_matches, pickle_compressed_iff_name_ends_gz,
+                                           pickle_extension_cases, tables_ok, exporterTable_keys
+  guard as a file-system invariant, ~ / $VAR spellings     (Props/C16Paths.lean) export_history_final,
+                                           export_history_never_clobbers, export_accepted_changes_only_target,
+                                           export_refused_changes_nothing, expand_noop, expandUser_home,
+                                           coded_eq_repaired, runHistoryCoded_eq; the code until fix adfd5d8 REFUTED for
+                                           one spelling: video_str_tilde_clobbers, coded_guard_refuted
+  pickle                                   (Props/C16Pickle.lean) what menpo does around the serialiser: pickle_roundtrip_object,
+                                           pickle_state_equal, purify_idem, purify_noop, pickle_roundtrip_dict,
+                                           pickle_roundtrip_list, pickle_singleton_list_unwrapped, hook_restored; which
+                                           opener / importer: export_import_agree.  pickle.dump/load and gzip themselves
+                                           are a contract (the tree written is the tree read), decided by the
+                                           state-equality oracle on real files — PARTIAL in that sense
 -/
 import MenpoModel.Lemmas.C16Ljson
 import MenpoModel.Lemmas.C16Guard
 import MenpoModel.Lemmas.C16Float
 import MenpoModel.Lemmas.C16Num
+import MenpoModel.Props.C16Ext
+import MenpoModel.Props.C16Legacy
+import MenpoModel.Props.C16Soft
+import MenpoModel.Props.C16Paths
+import MenpoModel.Props.C16PtsN
+import MenpoModel.Props.C16Pickle
 
 namespace MenpoModel.C16
 
@@ -111,6 +135,72 @@ theorem ljson_other_dims_dropped (name : String) (a b c d : Rat) :
   simp [decodeDoc, encodeDoc, sortGroups, jNat, decodeGroups, decodeGroup, encodeGroup, exportPoints, decPoints,
     mapE]
 
+/-! ### repeated cycles: the first import is a fixed point -/
+
+/-- what `tojson` of an imported group sees when that group is exported again (`connectivity` = its `.edges`) -/
+def reexport (i : Imported) : Shape := { points := i.points, conn := some i.edges, labels := i.labels }
+
+theorem reexport_wf (s : Shape) (h : s.WF) : (reexport (expectedImport s)).WF := by
+  obtain ⟨hne, hd, _, hl⟩ := h
+  refine ⟨hne, hd, ?_, hl⟩
+  intro e he
+  have := (mem_symEdges s.points.length (s.conn.getD []) e.1 e.2).1 (by simpa [reexport, expectedImport] using he)
+  exact ⟨this.1, this.2.1⟩
+
+theorem expectedImport_reexport (s : Shape) : expectedImport (reexport (expectedImport s)) = expectedImport s := by
+  simp [expectedImport, reexport, ljson_edges_stable]
+
+/-- the first import of a document, and the dictionary handed to the exporter when it is exported again -/
+def importOf (gs : List (String × Shape)) : List (String × Imported) :=
+  (sortGroups gs).map fun g => (g.1, expectedImport g.2)
+def reexportAll (r : List (String × Imported)) : List (String × Shape) := r.map fun g => (g.1, reexport g.2)
+
+theorem sortGroups_sorted {α} (gs : List (String × α)) :
+    (sortGroups gs).Pairwise fun a b => decide (a.1 ≤ b.1) = true := by
+  apply List.pairwise_mergeSort
+  · intro a b c h1 h2
+    simp only [decide_eq_true_eq] at h1 h2 ⊢
+    exact String.le_trans h1 h2
+  · intro a b
+    simp only [Bool.or_eq_true, decide_eq_true_eq]
+    exact String.le_total a.1 b.1
+
+theorem sortGroups_idem_map {α β} (gs : List (String × α)) (f : α → β) :
+    sortGroups ((sortGroups gs).map fun g => (g.1, f g.2)) = (sortGroups gs).map fun g => (g.1, f g.2) := by
+  unfold sortGroups
+  apply List.mergeSort_of_pairwise
+  rw [List.pairwise_map]
+  exact sortGroups_sorted gs
+
+/-- PROPERTY (LJSON, any number of cycles).  After the first export → import, every further export → import returns
+exactly what the first import returned: same group order, coordinates, edge lists, ordered labels, classes. -/
+theorem ljson_cycle_fixed_point (gs : List (String × Shape)) (h : ∀ g ∈ gs, g.2.WF) :
+    decodeDoc (encodeDoc gs) = .ok (importOf gs) ∧
+    decodeDoc (encodeDoc (reexportAll (importOf gs))) = .ok (importOf gs) ∧
+    ∀ n, Nat.iterate (fun r => importOf (reexportAll r)) n (importOf gs) = importOf gs := by
+  have hstep : importOf (reexportAll (importOf gs)) = importOf gs := by
+    unfold importOf reexportAll
+    rw [List.map_map]
+    have := sortGroups_idem_map gs (fun s => reexport (expectedImport s))
+    simp only [Function.comp_def] at this ⊢
+    rw [this, List.map_map]
+    apply List.map_congr_left
+    intro g _
+    simp only [Function.comp_def, expectedImport_reexport]
+  have hwf : ∀ g ∈ reexportAll (importOf gs), g.2.WF := by
+    intro g hg
+    simp only [reexportAll, importOf, List.map_map, List.mem_map] at hg
+    obtain ⟨x, hx, rfl⟩ := hg
+    exact reexport_wf x.2 (h x ((sortGroups_perm gs).mem_iff.1 hx))
+  refine ⟨ljson_roundtrip gs h, ?_, ?_⟩
+  · have := ljson_roundtrip (reexportAll (importOf gs)) hwf
+    rw [this]
+    congr 1
+  · intro n
+    induction n with
+    | zero => rfl
+    | succ n ih => rw [Nat.iterate, hstep, ih]
+
 /-! ## points format -/
 
 /-- PROPERTY (PTS).  Export then import returns as many points, in menpo's axis order, each coordinate
@@ -166,57 +256,57 @@ theorem channel_layout_roundtrip {α} (img : Nat → Nat → Nat → α) :
 /-- PROPERTY (guard, one export).  An export is refused with `OverwriteError` exactly when the normalised path
 exists and overwriting was not requested — whatever the exporter kind, the extension, the spelling — and a
 refused (or otherwise failed) export leaves the whole file system as it was. -/
-theorem export_guard_refuses (cwd : Path) (fs : FS) (op : Op) :
-    ((export1 cwd fs op).1 = .overwriteError ↔
-        ((fs (normPath cwd op.spelling)).isSome = true ∧ op.overwrite = false)) ∧
-    ((export1 cwd fs op).1 ≠ .written → (export1 cwd fs op).2 = fs) :=
+theorem export_guard_refuses (env : Env) (cwd : Path) (fs : FS) (op : Op) :
+    ((export1 env cwd fs op).1 = .overwriteError ↔
+        ((fs (normPath env cwd op.spelling)).isSome = true ∧ op.overwrite = false)) ∧
+    ((export1 env cwd fs op).1 ≠ .written → (export1 env cwd fs op).2 = fs) :=
   ⟨exportAt_overwriteError_iff _ _ _ _ _ _, exportAt_fs_of_not_written _ _ _ _ _ _⟩
 
 /-- PROPERTY (guard, every history).  Take any sequence of exports of any kinds and spellings.  A file that
 exists and is never targeted with `overwrite=True` still holds its original bytes at the end, and every
 export that targeted it was answered with `OverwriteError`. -/
-theorem export_guard_history (cwd p : Path) (v : Nat) :
+theorem export_guard_history (env : Env) (cwd p : Path) (v : Nat) :
     ∀ (ops : List Op) (fs : FS), fs p = some v →
-      (∀ op ∈ ops, normPath cwd op.spelling = p → op.overwrite = false) →
-      (runHistory cwd fs ops).2 p = some v ∧
-      ∀ x ∈ ops.zip (runHistory cwd fs ops).1, normPath cwd x.1.spelling = p → x.2 = .overwriteError := by
+      (∀ op ∈ ops, normPath env cwd op.spelling = p → op.overwrite = false) →
+      (runHistory env cwd fs ops).2 p = some v ∧
+      ∀ x ∈ ops.zip (runHistory env cwd fs ops).1, normPath env cwd x.1.spelling = p → x.2 = .overwriteError := by
   intro ops
   induction ops with
   | nil => intro fs hv _; exact ⟨hv, by simp [runHistory]⟩
   | cons op t ih =>
     intro fs hv hno
-    have hkeep : (export1 cwd fs op).2 p = some v :=
+    have hkeep : (export1 env cwd fs op).2 p = some v :=
       exportAt_keeps fs _ p op.kind op.userExt op.overwrite op.content v hv
         (fun hp => hno op (by simp) hp.symm)
-    obtain ⟨ih1, ih2⟩ := ih (export1 cwd fs op).2 hkeep (fun o ho => hno o (by simp [ho]))
+    obtain ⟨ih1, ih2⟩ := ih (export1 env cwd fs op).2 hkeep (fun o ho => hno o (by simp [ho]))
     refine ⟨ih1, ?_⟩
     intro x hx hp
     simp only [runHistory, List.zip_cons_cons, List.mem_cons] at hx
     rcases hx with hx | hx
     · subst hx
       have how : op.overwrite = false := hno op (by simp) hp
-      show (exportAt fs (normPath cwd op.spelling) op.kind op.userExt op.overwrite op.content).1 = _
+      show (exportAt fs (normPath env cwd op.spelling) op.kind op.userExt op.overwrite op.content).1 = _
       rw [how, hp, exportAt_refused fs p op.kind op.userExt op.content (by simp [hv])]
     · exact ih2 x hx hp
 
 /-- a path no export of the history targets is not touched -/
-theorem export_guard_frame (cwd q : Path) :
-    ∀ (ops : List Op) (fs : FS), (∀ op ∈ ops, normPath cwd op.spelling ≠ q) →
-      (runHistory cwd fs ops).2 q = fs q := by
+theorem export_guard_frame (env : Env) (cwd q : Path) :
+    ∀ (ops : List Op) (fs : FS), (∀ op ∈ ops, normPath env cwd op.spelling ≠ q) →
+      (runHistory env cwd fs ops).2 q = fs q := by
   intro ops
   induction ops with
   | nil => intro fs _; rfl
   | cons op t ih =>
     intro fs h
-    have h1 : (export1 cwd fs op).2 q = fs q :=
+    have h1 : (export1 env cwd fs op).2 q = fs q :=
       exportAt_frame fs _ q op.kind op.userExt op.overwrite op.content (fun e => h op (by simp) e.symm)
     simp only [runHistory]
     rw [ih _ (fun o ho => h o (by simp [ho])), h1]
 
 /-- two spellings that normalise to the same path are the same export -/
-theorem export_guard_spelling (cwd : Path) (fs : FS) (op : Op) (s' : List Char)
-    (h : normPath cwd s' = normPath cwd op.spelling) :
-    export1 cwd fs { op with spelling := s' } = export1 cwd fs op := by
+theorem export_guard_spelling (env : Env) (cwd : Path) (fs : FS) (op : Op) (s' : List Char)
+    (h : normPath env cwd s' = normPath env cwd op.spelling) :
+    export1 env cwd fs { op with spelling := s' } = export1 env cwd fs op := by
   simp only [export1, h]
 
 /-- redundant spellings: empty components (`a//b`, trailing `/`), `.` components and `x/..` detours do not
@@ -287,17 +377,26 @@ example : parseExt (knownExts .pickle) "a.b.pkl.gz".toList = some ".pkl.gz".toLi
     parseExt (knownExts .pickle) "a.b.PKL".toList = some ".pkl".toList ∧
     parseExt (knownExts .pickle) "notes.txt".toList = none := by decide +kernel
 
-/-- `str`/`Path`, relative and absolute, with detours: one file -/
-example : normPath ["tmp".toList, "d".toList] "x/../a.b.ljson".toList = ["tmp".toList, "d".toList, "a.b.ljson".toList] ∧
-    normPath ["tmp".toList, "d".toList] "/tmp//d/./a.b.ljson".toList = ["tmp".toList, "d".toList, "a.b.ljson".toList] := by
+/-- an environment: `HOME` (with a trailing slash, which `expanduser` strips) and one more variable -/
+def exEnv : Env := ⟨[("HOME".toList, "/h/me/".toList), ("OUT".toList, "tmp/d".toList)]⟩
+
+/-- `str`/`Path`, relative and absolute, with detours, through `~` and through a variable: one file -/
+example : normPath exEnv ["tmp".toList, "d".toList] "x/../a.b.ljson".toList = ["tmp".toList, "d".toList, "a.b.ljson".toList] ∧
+    normPath exEnv ["tmp".toList, "d".toList] "/tmp//d/./a.b.ljson".toList = ["tmp".toList, "d".toList, "a.b.ljson".toList] ∧
+    normPath exEnv ["tmp".toList, "d".toList] "/$OUT/a.b.ljson".toList = ["tmp".toList, "d".toList, "a.b.ljson".toList] ∧
+    normPath exEnv ["tmp".toList, "d".toList] "/${OUT}/x/../a.b.ljson".toList = ["tmp".toList, "d".toList, "a.b.ljson".toList] ∧
+    normPath exEnv ["tmp".toList, "d".toList] "~/../../tmp/d/a.b.ljson".toList = ["tmp".toList, "d".toList, "a.b.ljson".toList] ∧
+    normPath exEnv ["tmp".toList, "d".toList] "~/a.pkl".toList = ["h".toList, "me".toList, "a.pkl".toList] ∧
+    normPath exEnv ["tmp".toList, "d".toList] "~nobody/$UNSET/a.pkl".toList =
+      ["tmp".toList, "d".toList, "~nobody".toList, "$UNSET".toList, "a.pkl".toList] := by
   decide +kernel
 
 /-- a history: write, refused rewrite through another spelling, overwrite, unknown extension -/
 example :
-    (runHistory ["d".toList] (fun _ => none)
-      [⟨.pickle, "m.pkl".toList, none, false, 1⟩, ⟨.pickle, "/d/./m.pkl".toList, none, false, 2⟩,
-       ⟨.pickle, "x/../m.pkl".toList, none, true, 3⟩, ⟨.image, "m.pkl".toList, none, false, 4⟩,
-       ⟨.image, "n.pkl".toList, none, false, 5⟩]).1
+    (runHistory exEnv ["d".toList] (fun _ => none)
+      [⟨.pickle, "m.pkl".toList, none, false, 1, true⟩, ⟨.pickle, "/d/./m.pkl".toList, none, false, 2, false⟩,
+       ⟨.pickle, "x/../m.pkl".toList, none, true, 3, true⟩, ⟨.image, "m.pkl".toList, none, false, 4, true⟩,
+       ⟨.image, "n.pkl".toList, none, false, 5, false⟩]).1
       = [.written, .overwriteError, .written, .overwriteError, .valueError] := by decide +kernel
 
 end MenpoModel.C16
